@@ -245,8 +245,13 @@ def run_morph(case):
     models.cmp_num(snap["maxT"], new_max, exact, ops_, f"{what} maxTimestamp", k=8 * n)
     if snap["minT"] != A["minT"]:
         raise Violation("timestamp-changed", f"{what}: minTimestamp {snap['minT']} != {A['minT']}")
+    if A["entries"] and snap["entries"] and snap["entries"][0][0] != A["entries"][0][0]:
+        # "preserving ... the first start": the very same number, not one that went through arithmetic
+        raise Violation("first-start-changed", f"{what}: first start {snap['entries'][0][0]!r} != {A['entries'][0][0]!r} (minTimestamp {A['minT']})")
     models.check_wellformed(snap, what)
     cl = set()
+    if A["minT"] > 0:
+        cl.add("source_span_starts_after_0")
     ents = A["entries"]
     if any(x[1] == y[0] for x, y in zip(ents, ents[1:])):
         cl.add("adjacent")
@@ -346,6 +351,9 @@ def morph_cases(draw):
             last = ents[-1][1] if ents else 0.0
             ents.append([last, last + 0.5, "t"])
         B = {"type": "interval", "name": "B", "entries": ents, "minT": 0.0, "maxT": max([e[1] for e in ents] + [1.0]), "style": style}
+    if A["entries"] and A["entries"][0][0] > 0.1 and draw(st.integers(0, 2)) == 0:
+        # a source tier whose span does not begin at 0 (the first start lies well inside it)
+        A["minT"] = draw(st.sampled_from([0.1, 0.2, 0.3, 0.7] if style != "grid" else [0.125, 0.25])) if A["entries"][0][0] > 0.7 else A["minT"]
     return {"tier": A, "target": B, "filter": draw(st.sampled_from([None, None, "a", "b"]))}
 
 
